@@ -23,6 +23,7 @@ from vk.refmodel import Ref, SENT
 logging.getLogger('asyncio').setLevel(logging.CRITICAL + 1)
 
 CTX = {}
+_REPO = __import__('os').environ.get('VK_REPO', '/repo').rstrip('/')
 
 
 class Deadlock(Exception):
@@ -156,7 +157,7 @@ async def oracle_inproc(mosaik_config, sim_name, sim_config, mosaik_remote):
 BASE_META = {
     'api_version': '3.0',
     'type': 'event-based',
-    'models': {'M': {'public': True, 'params': [], 'attrs': ['it', 'im', 'op', 'oe']}},
+    'models': {'M': {'public': True, 'params': [], 'attrs': ['it', 'it2', 'im', 'im2', 'op', 'oe']}},
 }
 
 IN_ATTR = {'time-based': ['im'], 'event-based': ['it'], 'hybrid': ['it', 'im']}
@@ -177,7 +178,7 @@ class SymSim(mosaik_api_v3.Simulator):
         if any_inputs:
             m['any_inputs'] = True
         if typ == 'hybrid':
-            m['trigger'] = ['it']
+            m['trigger'] = ['it', 'it2']
             m['non-persistent'] = ['oe']
         self.n = 0
         self.t = None
@@ -354,7 +355,7 @@ def build(world, ref, topo, eng, cfg):
         if ref is not None:
             st, dt = topo['types'][src], topo['types'][dst]
             persistent = sa == 'op' or st == 'time-based'
-            trigger = (da == 'it') or dt == 'event-based'
+            trigger = da.startswith('it') or dt == 'event-based'
             if dt == 'time-based':
                 trigger = False
             needed = (not trigger) and ('time_shifted' in kw or bool(kw.get('weak')))
@@ -371,8 +372,8 @@ def classify_exception(e):
     tb = traceback.extract_tb(e.__traceback__)
     where = None
     for fr in reversed(tb):
-        if fr.filename.startswith('/repo/mosaik/'):
-            where = f"{fr.filename[len('/repo/'):]}:{fr.name}"
+        if fr.filename.startswith(_REPO + '/mosaik/'):
+            where = f"{fr.filename[len(_REPO) + 1:]}:{fr.name}"
             break
     return {'exc_type': type(e).__name__, 'exc_msg': str(e)[:200], 'where': where}
 
